@@ -673,8 +673,15 @@ func rdpHandler(raw json.RawMessage) map[string]any {
 	}
 	in := append([]float64{}, flat...)
 	out := map[string]any{"idx": []int{}, "idx2": []int{}, "msg": ""}
+	dp := [][]int{}
 	ev, msg := call(func() {
+		xy.VerifHook = func(ev string, args ...int) {
+			if ev == "dp" && len(dp) < 5000 {
+				dp = append(dp, append([]int{}, args...))
+			}
+		}
 		idx := xy.SimplifyFlatCoords(flat, thr, c.Stride)
+		xy.VerifHook = nil
 		if idx == nil {
 			idx = []int{}
 		}
@@ -704,6 +711,7 @@ func rdpHandler(raw json.RawMessage) map[string]any {
 		}
 	}
 	out["inputsame"] = same
+	out["dp"] = dp
 	return out
 }
 
